@@ -8,55 +8,62 @@ from ..symmetry import norm_cond
 from .c02 import is_amount_line, zero_lines, BLANK
 
 
-def sign_model(an, year):
+def sign_model(an, year, assume=()):
+    """-> (amount-line definitions, provably non-negative lines, witnesses, ctx factory).
+    `assume`: lines taken as non-negative without proof (used to separate the root of a
+    finding from the lines that are negative only because they read it)."""
     cdefs = {}
     for d in an.defs.values():
         if d.year == year and is_amount_line(d.rec):
             fr = d.fr
             cdefs[f'v:{fr.form_name}:*.{d.name}' if fr.cls.is_sub_named('InputForm') else f'v:{fr.name}.{d.name}'] = d
     zero = zero_lines(an, year)
+    assume = set(assume) & set(cdefs)
     c0 = SignCtx(set(cdefs), {})
     c0.zero = zero
     ub = compute_ub(cdefs, c0)
 
     def mk(cand):
-        c = SignCtx(cand, {})
+        c = SignCtx(set(cand) | assume, {})
         c.ub = ub
         c.zero = zero
         return c
-    nn, wit = fixpoint(cdefs, mk)
+    nn, wit = fixpoint({k: d for k, d in cdefs.items() if k not in assume}, mk)
     # second stage: relational proofs (polyhedral case analysis) for what the sign domain cannot show;
     # proven lines are added as facts and the stage is repeated until nothing new is proven
     from ..relational import Prover
-    from ..signs import line_nonneg
     all_defs = {}
     for d in an.defs.values():
         if d.year == year:
             all_defs[f'v:{d.fr.name}.{d.name}'] = d
-    nn = set(nn)
+    nn = set(nn) | assume
+
+    def prove_line(k, facts):
+        """line k is non-negative given that the lines in `facts` are"""
+        d = cdefs[k]
+        ok, w = line_nonneg(d, mk(facts))
+        if ok:
+            return True
+        pr = Prover(cdefs, facts, zero)
+        pr.defs_all = all_defs
+        pr.ub = ub
+        for p in d.paths:
+            if p.outcome.kind != 'ret':
+                continue
+            v = p.outcome.value
+            if v is None:
+                continue
+            if isinstance(v, (tuple, list)) or not pr.prove_nonneg(v, p.guards, k):
+                return False
+        return True
+    mk.prove_line = prove_line
     changed = True
     rounds = 0
     while changed and rounds < 8:
         changed = False
         rounds += 1
-        pr = Prover(cdefs, nn, zero)
-        pr.defs_all = all_defs
-        ctx = mk(nn)
         for k in sorted(set(cdefs) - nn):
-            d = cdefs[k]
-            ok, w = line_nonneg(d, ctx)
-            if not ok:
-                ok = True
-                for p in d.paths:
-                    if p.outcome.kind != 'ret':
-                        continue
-                    v = p.outcome.value
-                    if v is None:
-                        continue
-                    if isinstance(v, (tuple, list)) or not pr.prove_nonneg(v, p.guards, k):
-                        ok = False
-                        break
-            if ok:
+            if prove_line(k, nn):
                 nn.add(k)
                 wit.pop(k, None)
                 changed = True
@@ -93,19 +100,23 @@ def guard_of(p, a, b):
 def check(tree, rep, tier='quick', seed=0):
     rep.explanation = ('(1) Balance identities decided on the linear normal forms of all paths: overpayment and amount owed are the two signed halves of '
                        'total payments minus total tax, produced under complementary guards (so at most one is positive and their difference is exactly '
-                       'payments minus tax), refund plus amount applied equals the overpayment; likewise for the NC return. (2) Non-negativity by abstract '
-                       'interpretation in a sign domain with symbolic upper bounds (min(a,b) <= a, x*r <= x for 0<=r<=1, a-b >= 0 under a guard a>b or when a '
-                       'bounds b), as a greatest fixed point over the line graph under the premise that amount and count inputs are non-negative: every line of '
-                       'the frozen list sa/data/nonneg_lines.json (lines provable on the confirmed baseline) must stay provable.')
-    rep.rule_text = 'obligation = one (year, identity) for R15.1, one (year, line) of the frozen non-negative list for R15.2'
+                       'payments minus tax), refund plus amount applied equals the overpayment; likewise for the NC return. (2) Non-negativity under the premise '
+                       'that amount and count inputs are non-negative, in two stages: abstract interpretation in a sign domain with symbolic upper bounds '
+                       '(min(a,b) <= a, x*r <= x for a rate or a ratio line capped at 1, a-b >= 0 under a guard a>b or when a bounds b) as a greatest fixed '
+                       'point over the line graph; then relational proofs for the rest - line definitions unfolded path by path, min / max / floor terms split '
+                       'into linear cases, every leaf system refuted by exact Fourier-Motzkin elimination. Every line of the frozen list '
+                       'sa/data/nonneg_lines.json (provable on the confirmed baseline) must stay provable (R15.2); the credit lines of nonneg_required.json must '
+                       'be provable too and are reported at the line where the sign is lost, not at the lines that merely read it (R15.3).')
+    rep.rule_text = 'obligation = one (year, identity) for R15.1, one (year, line) of the frozen non-negative list for R15.2, one (year, required credit line) for R15.3'
     rep.exhaustive = True
     rep.assumptions = ['amount (float) and count (integer) inputs are >= 0 (the premise of the property)',
                        'figure_tax is non-negative on its domain (decided by C07)',
-                       'lines whose sign depends on adjusted gross income being non-negative, and the capital-gain / Form 8606 worksheets whose non-negativity needs relational case analysis, are NOT armed (listed in the evidence); rounding effects are not modelled']
+                       'lines whose sign depends on adjusted gross income (which may legitimately be negative), Form 8606 lines needing mutually consistent inputs and 2021 Schedule 8812 Part III lines that are non-negative only where demanded are NOT armed (listed in the evidence with the expression that loses the sign); rounding of stored values is not modelled']
     an = get_analysis(tree)
     ids = load_data('balance_identities.json')
     frozen = load_data('nonneg_lines.json')
-    n_id = n_nn = 0
+    required = load_data('nonneg_required.json')
+    n_id = n_nn = n_req = 0
     for y in an.cat.years:
         # ---- R15.1
         for e in ids:
@@ -159,12 +170,33 @@ def check(tree, rep, tier='quick', seed=0):
             d = cdefs[k]
             rep.ob('R15.2', f'{y}/{k[2:]}', k in nn,
                    f'{y} {k[2:]} is defined by the forms as non-negative and used to be provably so; now the value `{_show(wit.get(k))}` can be negative for non-negative inputs', d.where)
+        # ---- R15.3 credits the forms define as non-negative that are not (yet) provable on the baseline
+        req = required.get(str(y), {})
+        unproved = sorted(k for k in req if k in cdefs and k not in nn)
+        for k in req:
+            if k not in cdefs:
+                rep.notes.append(f'{y}: required non-negative line {k} no longer exists')
+                continue
+            n_req += 1
+            if k in nn:
+                rep.ob('R15.3', f'{y}/{k[2:]}', True, '', cdefs[k].where)
+                continue
+            # negative only because it reads another unproved required line?  then the finding is reported at that line
+            others = (set(nn) | set(unproved)) - {k}
+            derived = mk.prove_line(k, others)
+            if derived:
+                rep.ob('R15.3', f'{y}/{k[2:]}', True, '', cdefs[k].where)
+                rep.notes.append(f'{y}: {k[2:]} can be negative only through another reported line')
+                continue
+            rep.ob('R15.3', f'{y}/{k[2:]}', False,
+                   f'{y} {k[2:]} ({req[k]}) can be negative for non-negative inputs: its value `{_show(wit.get(k))}` is not bounded below by zero on every path', cdefs[k].where)
         extra = sorted(set(nn) - set(listed))
         if extra:
             rep.notes.append(f'{y}: {len(extra)} further lines are provably non-negative but not in the frozen list (e.g. {extra[:3]})')
         rep.extra.setdefault('not_armed_nonneg', {})[str(y)] = sorted(k[2:] for k in cdefs if k not in nn)[:120]
     rep.floor('balance identities checked', n_id, 15)
     rep.floor('frozen non-negative lines checked', n_nn, 1300)
+    rep.floor('required non-negative credit lines checked', n_req, 10)
 
 
 def _show(w):
